@@ -1,4 +1,4 @@
-(* Runtime (scheduler) cases: X (call APIs), S (stream APIs), H (histories), Y (pairs).
+(* Runtime (scheduler) cases: X (call APIs), S (stream APIs), H (histories), Y (pairs of calls), Z (pairs of streams).
    Format: /verif/harness/FORMAT.md.  Parsing and printing only; all behaviour is in model.ml. *)
 open Model
 
@@ -134,29 +134,39 @@ let parse_scfg gg tokens =
   mk_scfg gg (kv tokens "ord" "f" = "r") (parse_strat (kv tokens "strat" "non")) (kv tokens "int" "0" = "1")
     (try Sys.getenv "FG_STREAM_DRAIN" <> "0" with Not_found -> true)
 
-let stream_run id pre sc events =
-  let st = ref (sinit sc) in
-  let k = ref 0 in
+(* one stream run, stepped event by event *)
+type srun = { sc : scfg; mutable sst : state; mutable sk : int; spre : string; sid : string }
+
+let mk_srun id pre sc = { sc; sst = sinit sc; sk = 0; spre = pre; sid = id }
+
+let stream_event r t =
+  let id = r.sid and pre = r.spre and sc = r.sc in
   let w s = if s.woken then "1" else "0" in
-  List.iter (fun t ->
-    (match t with
-     | "n" ->
-       let (s', r) = sstep sc !st SNext in
-       (match r with
-        | WPending -> st := s'; Printf.printf "OBS %s %se%d P W%s\n" id pre !k (if not (is_none s'.panic) then "-" else w s')
-        | WNone -> st := { s' with woken = false }; Printf.printf "OBS %s %se%d N W-\n" id pre !k
-        | WItem x -> st := { s' with woken = false }; Printf.printf "OBS %s %se%d Y%d W-\n" id pre !k (int_of_nat x)
-        | WInt None -> st := { s' with woken = false }; Printf.printf "OBS %s %se%d I- W-\n" id pre !k
-        | WInt (Some x) -> st := { s' with woken = false }; Printf.printf "OBS %s %se%d I%d W-\n" id pre !k (int_of_nat x))
-     | "i" -> st := fst (sstep sc !st SInt); Printf.printf "OBS %s %se%d W%s\n" id pre !k (w !st)
-     | "x" -> st := fst (sstep sc !st SDropStream); Printf.printf "OBS %s %se%d W%s\n" id pre !k (w !st)
-     | _ when String.length t >= 2 && t.[0] = 'd' ->
-       let i = int_of_string (String.sub t 1 (String.length t - 1)) in
-       st := fst (sstep sc !st (SDrop (nat_of_int i))); Printf.printf "OBS %s %se%d W%s\n" id pre !k (w !st)
-     | _ -> failwith ("bad stream event " ^ t));
-    incr k) events;
-  Printf.printf "OBS %s %sZ %s\n" id pre (if is_none !st.panic then "ok" else "X");
-  Printf.printf "OBS %s %sT %s\n" id pre (str_trace !st.trace)
+  (match t with
+   | "n" ->
+     let (s', res) = sstep sc r.sst SNext in
+     (match res with
+      | WPending -> r.sst <- s'; Printf.printf "OBS %s %se%d P W%s\n" id pre r.sk (if not (is_none s'.panic) then "-" else w s')
+      | WNone -> r.sst <- { s' with woken = false }; Printf.printf "OBS %s %se%d N W-\n" id pre r.sk
+      | WItem x -> r.sst <- { s' with woken = false }; Printf.printf "OBS %s %se%d Y%d W-\n" id pre r.sk (int_of_nat x)
+      | WInt None -> r.sst <- { s' with woken = false }; Printf.printf "OBS %s %se%d I- W-\n" id pre r.sk
+      | WInt (Some x) -> r.sst <- { s' with woken = false }; Printf.printf "OBS %s %se%d I%d W-\n" id pre r.sk (int_of_nat x))
+   | "i" -> r.sst <- fst (sstep sc r.sst SInt); Printf.printf "OBS %s %se%d W%s\n" id pre r.sk (w r.sst)
+   | "x" -> r.sst <- fst (sstep sc r.sst SDropStream); Printf.printf "OBS %s %se%d W%s\n" id pre r.sk (w r.sst)
+   | _ when String.length t >= 2 && t.[0] = 'd' ->
+     let i = int_of_string (String.sub t 1 (String.length t - 1)) in
+     r.sst <- fst (sstep sc r.sst (SDrop (nat_of_int i))); Printf.printf "OBS %s %se%d W%s\n" id pre r.sk (w r.sst)
+   | _ -> failwith ("bad stream event " ^ t));
+  r.sk <- r.sk + 1
+
+let stream_finish r =
+  Printf.printf "OBS %s %sZ %s\n" r.sid r.spre (if is_none r.sst.panic then "ok" else "X");
+  Printf.printf "OBS %s %sT %s\n" r.sid r.spre (str_trace r.sst.trace)
+
+let stream_run id pre sc events =
+  let r = mk_srun id pre sc in
+  List.iter (stream_event r) events;
+  stream_finish r
 
 let kind_char = function Logic -> "L" | Contains -> "C" | Data -> "D"
 let str_edges es =
@@ -199,4 +209,13 @@ let handle kind id _hd rest =
       else if String.length t > 2 && String.sub t 0 2 = "B:" then call_event rb (String.sub t 2 (String.length t - 2))
       else failwith ("bad pair event " ^ t)) (toks evs);
     call_finish ra; call_finish rb
+  | "Z", [ops; ca; cb; evs] ->
+    (* two streams on one graph: in the model they share nothing, so creating them up front is the same *)
+    let gg = build_graph id ops in
+    let ra = mk_srun id "A." (parse_scfg gg (toks ca)) and rb = mk_srun id "B." (parse_scfg gg (toks cb)) in
+    List.iter (fun t ->
+      if String.length t > 2 && String.sub t 0 2 = "A:" then stream_event ra (String.sub t 2 (String.length t - 2))
+      else if String.length t > 2 && String.sub t 0 2 = "B:" then stream_event rb (String.sub t 2 (String.length t - 2))
+      else failwith ("bad pair event " ^ t)) (toks evs);
+    stream_finish ra; stream_finish rb
   | _ -> raise Not_found
